@@ -9,6 +9,10 @@ missing reports, invocation log) are compared with IV.Specs + IV.Dr (Drivers/C05
 Evaluations are also interleaved BETWEEN class definitions (late registration after a first run): each is
 compared with the model's evaluation of the corresponding prefix of the history (`register` is a fold).
 The live registration data of the shipped spec sets goes through the same model.
+Round 10: the six flags of a registry point (filterable, raw, multi_output, no_redact, prio, no_obfuscate) and their
+propagation onto what is wired to it are compared with the model's `fRegister` after every class definition; values of
+several shapes and the arguments handed to each point's parser; re-export of one implementation object (third known
+finding); dr.set_enabled(.., False) per evaluation; five engine entry points.
 Oracle: stated on the invocation log and the broker, with "declared for c" = the implementation's
 requirements can be met when c is the only context supplied (computed from the generated shapes).
 """
@@ -27,10 +31,71 @@ from insights.core.exceptions import (BlacklistedSpec, CalledProcessError, Conte
 from insights.core.plugins import datasource, is_datasource, parser
 from insights.core.spec_factory import RegistryPoint, SpecDescriptor, SpecSet, first_of
 
-OUTCOMES = ["v", "n", "skip", "content", "crash", "calledproc", "timeout", "blacklisted"]
+OUTCOMES = ["v", "n", "skip", "content", "crash", "calledproc", "timeout", "blacklisted", "falsy", "elist", "list", "zero", "disabled"]
 RAISING = ("skip", "content", "crash", "calledproc", "timeout", "blacklisted")
+# "disabled": CONFIGURATION, not an outcome of the body — dr.set_enabled(component, False) for the time of the evaluation;
+# the component is passed over by the engine, produces nothing and its body is not called
+NOTHING = RAISING + ("disabled",)
+# value SHAPES: an object whose truth value is False, an empty list (what listdir/listglob give for an empty directory),
+# a list of two elements (a parser is then called once per element).  Model: atom(k * 100000 + cid).
+SHAPES = {"falsy": 2, "elist": 3, "list": 4}
 F_FREE = "context-free-implementation"
 F_REACH = "context-through-registry-point"
+F_TWICE = "same-implementation-registered-twice"
+
+# the six attributes _resolve_registry_points copies from the registry point onto what is wired to it
+FLAG_ATTRS = ("filterable", "raw", "multi_output", "no_redact", "prio", "no_obfuscate")
+NOB = [[], ["hostname"], ["ipv4", "mac"]]
+
+
+def flags_kwargs(n):
+    """the flag value n (model: one opaque Nat) as keyword arguments of RegistryPoint(...) / @datasource(...)"""
+    return {"filterable": bool(n & 1), "raw": bool(n & 2), "multi_output": bool(n & 4), "no_redact": bool(n & 8),
+            "prio": (n >> 4) & 3, "no_obfuscate": list(NOB[(n >> 6) % 3])}
+
+
+def flags_encode(vals):
+    """inverse of flags_kwargs on what the implementation shows; anything of another shape is shown as it is"""
+    try:
+        f, r, m, nr, prio, nob = vals
+        if all(x is True or x is False for x in (f, r, m, nr)) and isinstance(prio, int) and 0 <= prio < 4 and nob in NOB:
+            return str(int(f) + 2 * int(r) + 4 * int(m) + 8 * int(nr) + 16 * prio + 64 * NOB.index(nob))
+    except Exception:
+        pass
+    return "?%r" % (vals,)
+
+
+def gen_flags(rng):
+    r = rng.random()
+    if r < 0.35:
+        return 0
+    if r < 0.7:
+        return rng.choice([1, 2, 4, 8, 16, 32, 64, 128])
+    return rng.randrange(192)
+
+
+class Falsy(object):
+    """a value whose truth value is False"""
+    def __init__(self, cid):
+        self.cid = cid
+
+    def __bool__(self):
+        return False
+    __nonzero__ = __bool__
+
+    def __len__(self):
+        return 0
+
+    def __eq__(self, other):
+        return isinstance(other, Falsy) and other.cid == self.cid
+
+    def __ne__(self, other):
+        return not self == other
+
+    __hash__ = None
+
+    def __repr__(self):
+        return "Falsy(%d)" % self.cid
 
 
 class Crash(Exception):
@@ -103,10 +168,13 @@ class SWorld(object):
                 base = ExecutionContext if cpar[i] < 0 else self.ctxs[cpar[i]]
                 self.ctxs.append(type("Ctx%d_%s" % (i, tag), (base,), {}))
             self.comps[i] = self.ctxs[i]
-        self.root = type("Root_" + tag, (SpecSet,), dict(("p%d" % k, RegistryPoint()) for k in range(self.npoints)))
+        self.own = {}       # cid -> the flags the component is CREATED with (generator's knowledge; model: `own`)
+        self.made = {}      # id(value) -> (value, code): the shaped values produced by the generated datasources
+        pf = case.get("pflags") or [None] * self.npoints
+        self.root = type("Root_" + tag, (SpecSet,), dict(("p%d" % k, self._point(self.nctx + k, pf[k])) for k in range(self.npoints)))
         self.points = []
         self.parsers = []
-        self.parser_calls = []          # (point id, argument is None)
+        self.parser_calls = []          # (point id, the argument the parser received)
         for k in range(self.npoints):
             self.comps[self.nctx + k] = getattr(self.root, "p%d" % k)
             self.points.append(self.nctx + k)
@@ -120,12 +188,16 @@ class SWorld(object):
         while define_all and self.defined < len(case["classes"]):
             self.define_next()
 
+    def _point(self, cid, flags):
+        self.own[cid] = flags or 0
+        return RegistryPoint() if flags is None else RegistryPoint(**flags_kwargs(flags))
+
     def _parser(self, pcid):
-        """a real @parser consuming the registry point: it must never be handed None"""
+        """a real @parser consuming the registry point: it is handed the point's value (element by element for a list)"""
         world = self
 
         def fn(value):
-            world.parser_calls.append((pcid, value is None))
+            world.parser_calls.append((pcid, value))
             return 1
         fn.__name__ = "parse%d_%s" % (pcid, self.tag)
         fn.__qualname__ = fn.__name__
@@ -138,7 +210,9 @@ class SWorld(object):
         before = set(self.decls)
         ns = {}
         for e in cd["entries"]:
-            ns["p%d" % e["name"]] = RegistryPoint() if e["kind"] == "point" else self._make(e, self.tag)
+            # RE-EXPORT: `p0 = Earlier.p0` — the SAME implementation object attached again under the same name
+            ns["p%d" % e["name"]] = (self._point(e["cid"], e.get("flags")) if e["kind"] == "point" else
+                                     self.comps[e["cid"]] if e.get("reexport") else self._make(e, self.tag))
         parent = self.root if cd["parent"] < 0 else self.classes[cd["parent"]]
         # REDEFINITION under the same name (module reload, re-run cell, type() with a fixed name): same module, class
         # name and spec names as an earlier class, so dr.get_name() of the implementations is identical
@@ -158,9 +232,17 @@ class SWorld(object):
         """the history as far as it has been created"""
         return dict(self.case, classes=self.case["classes"][:self.defined])
 
-    def _ds(self, cid, deps, tag, dstype="plain"):
+    def _ds(self, cid, deps, tag, dstype="plain", flags=None):
         world = self
         self.deco[cid] = DSTYPES[dstype]
+        # created with: the class attributes of the decorator type, or all six given as keyword arguments
+        self.own[cid] = flags if flags is not None else (8 if dstype == "sub2" else 0)
+        kw = flags_kwargs(flags) if flags is not None else {}
+
+        def shaped(kind):
+            v = Falsy(cid) if kind == "falsy" else [] if kind == "elist" else [1000 + cid, 5000 + cid]
+            world.made[id(v)] = (v, SHAPES[kind] * 100000 + cid)
+            return v
 
         def fn(*args):             # a datasource receives the broker; another component type its dependencies
             world.calls.append(cid)
@@ -169,6 +251,10 @@ class SWorld(object):
                 return 1000 + cid
             if o == "n":
                 return None
+            if o in SHAPES:
+                return shaped(o)
+            if o == "zero":                # present but falsy: the integer 0 (model: atom 0, whoever produced it)
+                return 0
             if o == "skip":
                 raise SkipComponent("skip %d" % cid)
             if o == "content":
@@ -182,7 +268,7 @@ class SWorld(object):
             raise Crash("crash %d" % cid)
         fn.__name__ = "d%d_%s" % (cid, tag)
         fn.__qualname__ = fn.__name__
-        comp = DSTYPES[dstype](*deps)(fn)
+        comp = DSTYPES[dstype](*deps, **kw)(fn)
         self.comps[cid] = comp
         return comp
 
@@ -230,6 +316,7 @@ class SWorld(object):
             comp = logged_first_of([h1, h2])
             self.comps[cid] = comp
             self.deco[cid] = dr.get_delegate(comp).type
+            self.own[cid] = 0
             self.decls[cid] = "g%d,%d" % (e["helper"], e["helper2"])
             self.fixed[cid] = "first"
             return comp
@@ -241,7 +328,8 @@ class SWorld(object):
             raise ValueError(kind)
         if e.get("dstype") != "fake":
             self.decls[cid] = items
-        return self._ds(cid, deps, tag, e.get("dstype") or "plain")
+        return self._ds(cid, deps, tag, e.get("dstype") or "plain",
+                        e.get("flags") if e.get("dstype") != "fake" else None)
 
     # -- protocol
     def header_lines(self):
@@ -277,6 +365,30 @@ class SWorld(object):
     def univ(self):
         return sorted(c for c in self.comps if c >= self.nctx)
 
+    def flagged(self):
+        """the components whose flags are observed: registry points and everything that is a datasource by type"""
+        return [c for c in self.univ() if c in self.points or (c in self.deco and issubclass(self.deco[c], datasource))]
+
+    def flags_line(self):
+        cs = self.flagged()
+        return "hflags\t%s\t%s" % (",".join(map(str, cs)) or "-", ",".join("%d=%d" % (c, self.own.get(c, 0)) for c in cs) or "-")
+
+    def flags_of(self, cid, with_object=True):
+        """what the implementation shows: the six attributes of the DELEGATE (what the engine, the filters and the
+        hydration read); the component object itself, where it has the attribute, must agree with its delegate"""
+        comp = self.comps[cid]
+        d = dr.get_delegate(comp)
+        vals = tuple(getattr(d, a, "<absent>") for a in FLAG_ATTRS)
+        txt = flags_encode(vals)
+        for a, dv in zip(FLAG_ATTRS, vals):
+            # (an object that is wired to nothing may carry attributes of its own: first_of sets self.raw = None)
+            if with_object and hasattr(comp, a) and getattr(comp, a) != dv:
+                txt += "!object.%s=%r" % (a, getattr(comp, a))
+        return txt
+
+    def flags_text(self):
+        return "flags=" + ";".join("%d:%s" % (c, self.flags_of(c, with_object=False)) for c in self.flagged())
+
     def flat_shaped(self):
         return not any(e["kind"] == "point" for cd in self.case["classes"][:self.defined] for e in cd["entries"])
 
@@ -309,19 +421,33 @@ class SWorld(object):
         self.outcome = dict(outcome)
         self.calls = []
         self.parser_calls = []
+        self.made = {}
         g = self.graph()
         order = dr.run_order(dict((k, set(v)) for k, v in g.items()))
         b = dr.Broker()
         for c in active:
             b[self.ctxs[c]] = self.ctxs[c]()
         err = None
+        off = [self.comps[c] for c, o in outcome.items() if o == "disabled" and c in self.comps]
         try:
+            for comp in off:
+                dr.set_enabled(comp, False)
             if mode == "run":
                 dr.run(dict((k, set(v)) for k, v in g.items()), broker=b)
+            elif mode == "run-list":          # dr.run([components]): the graph is built by determine_components
+                dr.run([self.comps[p] for p in self.points] + list(self.parsers), broker=b)
+            elif mode == "incremental":       # sub-graph by sub-graph (ordered by the points' prio), one shared broker
+                for _ in dr.run_incremental(dict((k, set(v)) for k, v in g.items()), broker=b):
+                    pass
+            elif mode == "run-all":
+                dr.run_all(dict((k, set(v)) for k, v in g.items()), broker=b)
             else:
                 dr.run_components(order, g, b)
         except Exception as ex:      # nothing may escape (C03); reported as a broken correspondence here
             err = ex
+        finally:
+            for comp in off:
+                dr.ENABLED.pop(comp, None)      # back to the default (enabled)
         return b, [self.ids[c] for c in order if c in self.ids], [self.ids[c] for c in g if c in self.ids], err
 
     def run_text(self, b, err):
@@ -332,7 +458,8 @@ class SWorld(object):
             c = self.comps[cid]
             if c in b.instances:
                 v = b.instances[c]
-                inst.append("%d:%s" % (cid, "N" if v is None else "A%d" % v if isinstance(v, int) else "?%r" % (v,)))
+                inst.append("%d:%s" % (cid, "N" if v is None else "A%d" % v if isinstance(v, int) and not isinstance(v, bool) else
+                                       "A%d" % self.made[id(v)][1] if id(v) in self.made and self.made[id(v)][0] is v else "?%r" % (v,)))
             if c in b.missing_requirements:
                 r, a = b.missing_requirements[c]
                 miss.append("%d:%s/%s" % (cid, ";".join(str(self.ids[x]) for x in r),
@@ -438,6 +565,8 @@ class Analysis(object):
     def classify(self, key):
         """known-finding id a failure on the spec `key` is an instance of (predicate on the INPUT), or None"""
         members = self.families[key]["members"]
+        if len(set(e["cid"] for e in members)) < len(members):
+            return F_TWICE          # one implementation OBJECT attached more than once (`p0 = Earlier.p0`)
         if any(e["kind"] in ("free", "viafree") for e in members):
             return F_FREE
         if any(e["kind"] == "pdep" for e in members):
@@ -475,26 +604,35 @@ def oracle(report, world, case, active, b, err, desc):
         sp = spec_name(key)
         L = [e for e in impls if A.runnable(e, c)]
         for e in L[:-1]:
-            if e["cid"] in called:
+            if e["cid"] in called and e["cid"] != L[-1]["cid"]:
                 report.failure("spec %s: implementation %d ran although the later %d is declared for the active context %d"
                                % (sp, e["cid"], L[-1]["cid"], c), desc, finding=fid)
         for e in impls:
             if not A.runnable(e, c) and e["cid"] in called:
                 report.failure("spec %s: implementation %d, declared for other contexts only, ran under context %d"
                                % (sp, e["cid"], c), desc, finding=fid)
+        for e in impls:
+            if world.outcome.get(e["cid"]) == "disabled" and e["cid"] in called:
+                report.failure("spec %s: implementation %d is disabled (dr.set_enabled(.., False)) and ran" % (sp, e["cid"]), desc, finding=fid)
         last = L[-1] if L else None
         if last is not None:
             # were its requirements met?  (helper / other registry point present in the final broker)
+            # PREDICTED from the generated shape, not read off the broker: a helper datasource is wired to no registry
+            # point, is never told to ignore anything, and produces a value iff its context is the active one and its
+            # outcome is not a raising one — a helper that was silently left out of the evaluation must not excuse the
+            # implementation that needs it
+            def helper_ok(h):
+                return world.outcome.get(h, "v") not in NOTHING
             req_ok = True
             if last["kind"] in ("via", "viafree"):
-                req_ok = world.comps[last["helper"]] in b.instances
+                req_ok = helper_ok(last["helper"])
             elif last["kind"] in ("twoany", "reqany"):      # each any-list must have a present member
-                req_ok = world.comps[last["helper"]] in b.instances or world.comps[last["helper2"]] in b.instances
+                req_ok = helper_ok(last["helper"]) or helper_ok(last["helper2"])
             elif last["kind"] == "firstof":
-                req_ok = world.comps[last["helper"]] in b.instances or world.comps[last["helper2"]] in b.instances
+                req_ok = any(helper_ok(h) for h, x in ((last["helper"], last["ctxs"][0]), (last["helper2"], last["ctxs"][1])) if x == c)
             elif last["kind"] == "pdep":
                 req_ok = world.comps[world.nctx + last["pdep"]] in b.instances
-            if req_ok and last["cid"] not in called:
+            if req_ok and last["cid"] not in called and world.outcome.get(last["cid"]) != "disabled":
                 report.failure("spec %s: the latest implementation declared for context %d (%d) has its requirements met but was not executed"
                                % (sp, c, last["cid"]), desc, finding=fid)
         # a RAISING latest implementation (SkipComponent, ContentException, CalledProcessError, TimeoutException,
@@ -524,11 +662,36 @@ def oracle(report, world, case, active, b, err, desc):
                 if point not in b.instances or (b.instances[point] is not lv and b.instances[point] != lv):
                     report.failure("spec %s, %s: value %r is not the one produced by the latest implementation for context %d (%d: %r)"
                                    % (sp, lvl, b.instances.get(point, "<absent>"), c, last["cid"], lv), desc, finding=fid)
+                # what the PARSER of this point is handed: that value — element by element when it is a list
+                want = list(lv) if isinstance(lv, list) else [lv]
+                got = [v for pc, v in world.parser_calls if pc == p]
+                if len(got) != len(want) or any(g is not w and g != w for g, w in zip(got, want)):
+                    report.failure("spec %s, %s: its parser was handed %r, the latest implementation for context %d (%d) produced %r"
+                                   % (sp, lvl, got, c, last["cid"], lv), desc, finding=fid)
             elif point in b.instances:
                 why = ("the latest implementation for context %d (%d) produced nothing" % (c, last["cid"]) if below else
                        "the latest implementation for context %d (%d) is not below this point: everything below it is overridden"
                        % (c, last["cid"]) if last is not None else "no implementation is declared for context %d" % c)
                 report.failure("spec %s, %s: present with %r although %s" % (sp, lvl, b.instances[point], why), desc, finding=fid)
+
+
+def flags_oracle(report, world, case, desc):
+    """the flag clause of the mechanism, stated on the implementation: everything that belongs to a spec — every
+    wired implementation at whatever level, every re-declaration of the point — shows the six flags the TOP-LEVEL
+    registry point was declared with, on its delegate and on the object"""
+    A = Analysis(case)
+    for key, fam in sorted(A.families.items()):
+        top = fam["points"][0]
+        want = str(world.own.get(top, 0))
+        for cid in fam["points"] + [e["cid"] for e in fam["members"]]:
+            try:
+                got = world.flags_of(cid)
+            except Exception as ex:
+                got = "raised:%s" % type(ex).__name__
+            if got != want:
+                report.failure("spec %s: component %d shows flags %s (%s), the registry point %d of the spec was declared with %s (%s)"
+                               % (spec_name(key), cid, got, flags_kwargs(int(got)) if got.isdigit() else "-", top, want,
+                                  flags_kwargs(int(want))), desc)
 
 
 # --------------------------------------------------------------------------- generation
@@ -676,6 +839,19 @@ def gen_case(rng, quick, allow_findings=True):
                 e["kind"], e["helper"], e["helper2"] = "firstof", nid(), nid()      # first_of([h(ctxA), h(ctxB)])
             if e["kind"] not in ("point", "firstof"):
                 e["dstype"] = dstype(ci)
+            # the flags the component is created with: RegistryPoint(multi_output=…, …) / @datasource(…, raw=…, …);
+            # None = created without these keyword arguments (class defaults)
+            if e["kind"] == "point":
+                e["flags"] = gen_flags(rng) if rng.random() < 0.8 else None
+            elif e["kind"] != "firstof" and rng.random() < 0.4:
+                e["flags"] = gen_flags(rng)
+            src = [x for j in range(ci) for x in classes[j]["entries"]
+                   if x["name"] == name and x["kind"] in ("single", "group", "via") and x.get("dstype") != "fake"
+                   and not x.get("reexport")]
+            if allow_findings and not hier and src and e["kind"] != "point" and not (chain and name == focus["name"]) and rng.random() < 0.04:
+                e = dict(rng.choice(src), reexport=True)      # `p0 = Earlier.p0`: the same object attached again
+                entries.append(e)
+                continue
             e["cid"] = nid()
             entries.append(e)
             if parent < 0 and name < npoints and e["kind"] != "point" and e.get("dstype") != "fake":
@@ -685,8 +861,9 @@ def gen_case(rng, quick, allow_findings=True):
         if same and rng.random() < 0.2:
             cd["same_name_as"] = rng.choice(same)
         classes.append(cd)
+    pflags = [gen_flags(rng) if rng.random() < 0.85 else None for _ in range(npoints)]
     return {"nctx": nctx, "serialized": ctx_special == "serialized", "ctx_special": ctx_special, "ctx_parent": ctx_parent,
-            "npoints": npoints, "classes": classes, "focus": focus, "ds_mode": ds_mode}
+            "npoints": npoints, "classes": classes, "focus": focus, "ds_mode": ds_mode, "pflags": pflags}
 
 
 def gen_outcome(rng, world, style):
@@ -738,7 +915,7 @@ def check_world(chk, report, rng, case, lines, impl, cases, runs_per_ctx):
 
     def evaluate(active, style, what):
         outcome = gen_outcome(rng, world, style)
-        mode = "run" if rng.random() < 0.5 else "components"
+        mode = rng.choice(["run", "run", "components", "components", "run-list", "incremental", "run-all"])
         b, order, keys, err = world.run(active, outcome, mode)
         script.append({"eval": {"active": active, "outcome": dict((str(k), v) for k, v in outcome.items()), "mode": mode}})
         oracle(report, world, world.pcase(), active, b, err, {"case": case, "script": list(script)})
@@ -761,6 +938,8 @@ def check_world(chk, report, rng, case, lines, impl, cases, runs_per_ctx):
                 chk.count("active-context:" + ("derived-from-another-context" if cp[a] >= 0 else
                                                "parent-of-a-derived-context" if a in cp else "no-relatives"))
             chk.count("invoked:%d" % min(len(set(world.calls)), 6))
+            chk.count("entry-point:" + {"run": "dr.run(graph)", "components": "dr.run_components", "run-list": "dr.run([components])",
+                                        "incremental": "dr.run_incremental(shared broker)", "run-all": "dr.run_all"}[mode])
             chk.count("evaluation:" + ("interleaved(before-later-classes)" if what == "prefix-run" else
                                        "after-whole-history" + ("+earlier-evaluations" if evals_at else "")))
             if len(active) == 1:
@@ -777,6 +956,14 @@ def check_world(chk, report, rng, case, lines, impl, cases, runs_per_ctx):
         new = world.define_next()
         lines.extend(world.class_lines(ci, walk, new))
         script.append({"def": ci})
+        # the flags of every registry point and datasource after EVERY class definition (model: fRegister)
+        lines.append(world.flags_line())
+        try:
+            impl.append(world.flags_text())
+        except Exception as ex:
+            impl.append("raised:%s" % type(ex).__name__)
+        cases.append({"case": case, "what": "flags" if ci == n - 1 else "prefix-flags", "classes-created": world.defined})
+        flags_oracle(report, world, world.pcase(), {"case": case, "script": list(script)})
         if ci < n - 1:
             # dr.IGNORE of every implementation and the dependency order of every point after EVERY registration step
             lines.append(world.reg_line())
@@ -853,6 +1040,10 @@ def check_world(chk, report, rng, case, lines, impl, cases, runs_per_ctx):
                 elif cp and any(a in cp for a in e["ctxs"]):
                     chk.count("impl-contexts:parent-of-a-derived-context")
                 chk.count("impl:" + e["kind"] + ("" if e["name"] < case["npoints"] else "(not-a-root-point)"))
+                if e.get("reexport"):
+                    chk.count("impl:RE-EXPORT-of-an-earlier-implementation-object")
+                chk.count("created-with-flags:" + ("point:" if e["kind"] == "point" else "datasource:") +
+                          ("defaults" if e.get("flags") is None else "all-false" if e["flags"] == 0 else "some-set"))
     return world
 
 
@@ -1034,11 +1225,17 @@ def run_script(w, with_lines=False):
     world = SWorld(case, define_all=False)
     walk = tree_walk(case)
     lines = world.header_lines()
-    b, found = None, []
+    b, found, found_flags = None, [], []
     for st in script:
         if "def" in st:
             new = world.define_next()
             lines.extend(world.class_lines(st["def"], walk, new))
+            col = _Collect()
+            flags_oracle(col, world, world.pcase(), {})
+            found_flags = col.found        # the flags as they are after the latest class definition
+            if with_lines:
+                print("  after class %d: %s%s" % (st["def"], world.flags_text(),
+                                                   "".join("\n    oracle: %s" % d for d, _ in col.found)))
         else:
             ev = st["eval"]
             outcome = dict((int(k), v) for k, v in ev["outcome"].items())
@@ -1051,7 +1248,9 @@ def run_script(w, with_lines=False):
                 print("  evaluation after %d classes, active %s, outcomes %s -> %s%s" % (
                     world.defined, ev["active"], outs_text(outcome), world.run_text(b, err),
                     "".join("\n    oracle: %s%s" % (d, (" (known finding %s)" % f) if f else "") for d, f in found)))
-    return world, b, found, lines
+    if script and "def" in script[-1]:
+        found = []                 # a script that ends with a class definition records a failure of the flag clause
+    return world, b, found + found_flags, lines
 
 
 SHIPPED_ORDER = r"""
@@ -1086,7 +1285,7 @@ def shipped_import_order():
 def run(chk):
     rng = chk.rng
     quick = chk.tier == "quick"
-    n_worlds = 700 if quick else 12000
+    n_worlds = 900 if quick else 12000
     runs_per_ctx = 4 if quick else 8
     chk.rule = ("random registration histories of REAL SpecSet classes: 1-7 classes extending the root or ANY earlier class; 40% of "
                 "the histories are hierarchies deeper than two levels in which intermediate classes RE-DECLARE registry points "
@@ -1120,6 +1319,14 @@ def run(chk):
                 "every context active in turn (+ none / two), outcomes "
                 "value/None/SkipComponent/ContentException/crash per implementation and helper (all-succeed, latest-registered failing, "
                 "one failing, random); "
+                "round 10: registry points (root and re-declared) and implementations are CREATED WITH random settings of the six "
+                "flags (filterable, raw, multi_output, no_redact, prio, no_obfuscate; keyword arguments, or the class attributes of a "
+                "specialised datasource type) and the flags of every point and datasource are compared with the model's fRegister "
+                "after EVERY class definition; values of other SHAPES (an object whose truth value is False, an empty list, a "
+                "two-element list) next to ints and None, and the arguments the parser of every level's point receives; 4% of the "
+                "flat histories RE-EXPORT an earlier implementation object under the same name (`p0 = Earlier.p0`, third known "
+                "finding); evaluation through dr.run(graph), dr.run([components]), dr.run_components, dr.run_incremental (one "
+                "shared broker) and dr.run_all; "
                 "non-trivial = one active context, a spec with >= 2 wired implementations, something invoked; "
                 "distinct = history shape x active context x outcome multiset x invocation log")
     chk.assumptions = [
@@ -1137,6 +1344,13 @@ def run(chk):
         "driver on every generated history (H=ok in the registration streams), not proved from the fold in general",
         "the flat model (theorems registration_lists .. point_value_partial) and the hierarchical model are both evaluated by "
         "the driver on histories where only the root declares points and must agree (flat=agree in every compared line)",
+        "flags: the value a component is created with (`own` of the model) is the generator's knowledge — the keyword arguments "
+        "it passed to RegistryPoint(...) / @datasource(...), or the class attributes of the decorator type; the implementation "
+        "side shows the six attributes of the DELEGATE (what filters, hydration and get_subgraphs read), the oracle also requires "
+        "the component object to agree with its delegate where it is wired",
+        "value shapes: one model atom per (shape, producer); on the implementation side a value is identified by object identity "
+        "with what the generated datasource returned in this evaluation (a copy would be shown as it is and break the tie, the "
+        "oracle accepts equal values); parsers are not part of the model, their calls are held to the oracle only",
         "shipped spec sets: registration order of the classes = Specs.__subclasses__() order; 'declared for' = the execution "
         "contexts in the implementation's dependency tree when its class was created, reconstructed through the public dr API "
         "(time-aware walk); the implementation's internal context_handlers table is not read by any stream or oracle (only its "
@@ -1144,7 +1358,7 @@ def run(chk):
     ]
     chk.lean()
     # ---- witnesses of the known findings (corpus first)
-    for fid in (F_FREE, F_REACH):
+    for fid in (F_FREE, F_REACH, F_TWICE):
         w = load_witness(fid)
         world, b, found, _ = run_script(w)
         chk.witnesses.append({"id": fid, "reproduces": bool(found), "oracle": [d for d, _ in found][:2]})
@@ -1167,8 +1381,8 @@ def run(chk):
         case = gen_case(rng, quick)
         check_world(chk, chk, rng, case, lines, impl, cases, runs_per_ctx)
     model = run_driver("C05", lines)
-    answers = [m for l, m in zip(lines, model) if l.split("\t")[0] in ("hreg", "hsup", "hrun")]
-    bad = [m for l, m in zip(lines, model) if l.split("\t")[0] not in ("hreg", "hsup", "hrun") and m != "ok"]
+    answers = [m for l, m in zip(lines, model) if l.split("\t")[0] in ("hreg", "hsup", "hrun", "hflags")]
+    bad = [m for l, m in zip(lines, model) if l.split("\t")[0] not in ("hreg", "hsup", "hrun", "hflags") and m != "ok"]
     if bad:
         chk.tie_broken("protocol", "driver rejected %d world lines" % len(bad), bad[:3])
     def is_hier(c):
@@ -1177,7 +1391,9 @@ def run(chk):
     for what, name in (("registration", "registration(deps,IGNORE)"), ("supplier", "rule(supplier)"),
                        ("run", "evaluation(values,missing,invocations)"),
                        ("prefix-registration", "interleaved:registration-of-prefix"),
-                       ("prefix-run", "interleaved:evaluation-of-prefix")):
+                       ("prefix-run", "interleaved:evaluation-of-prefix"),
+                       ("flags", "registration(flags of every point and datasource)"),
+                       ("prefix-flags", "interleaved:flags-after-every-class-definition")):
         for hier in (False, True):
             sel = [i for i, c in enumerate(cases) if c["what"].startswith(what) and is_hier(c) == hier]
             if sel:
@@ -1225,10 +1441,13 @@ def replay(data):
     print("replaying history with %d classes, %d points, %d evaluation(s); the recorded failure is at the last one" % (
         len(case["classes"]), case["npoints"], nev))
     world, b, found, lines = run_script(c, with_lines=True)
+    ends_with_eval = b is not None and not ("script" in c and c["script"] and "def" in c["script"][-1])
     lines.append(world.reg_line())
+    lines.append(world.flags_line())
     out = run_driver("C05", lines)
-    print("implementation: %s\n                %s" % (world.reg_text(), world.run_text(b, None)))
-    print("model:          %s\n                %s" % (out[-1], out[-2]))
+    print("implementation: %s\n                %s%s" % (world.reg_text(), world.flags_text(),
+                                                      "\n                " + world.run_text(b, None) if ends_with_eval else ""))
+    print("model:          %s\n                %s%s" % (out[-2], out[-1], "\n                " + out[-3] if ends_with_eval else ""))
     for d, f in found:
         print("oracle:", d, ("(known finding %s)" % f) if f else "")
     print("property violated on this input" if found else "property holds on this input")
